@@ -254,6 +254,70 @@ func evalCmp(op Op, w int, a, b uint64) bool {
 	panic("evalCmp: bad op")
 }
 
+// maxVal returns an upper bound (unsigned) of a bit-vector term by a cheap structural analysis.
+func maxVal(t *Term, depth int) uint64 {
+	m := mask(t.w)
+	if depth > 8 {
+		return m
+	}
+	switch t.op {
+	case OpConst:
+		return t.val
+	case OpZExt:
+		return maxVal(t.args[0], depth+1)
+	case OpLShr:
+		if t.args[1].IsConst() {
+			if t.args[1].val >= uint64(t.w) {
+				return 0
+			}
+			return maxVal(t.args[0], depth+1) >> t.args[1].val
+		}
+		return maxVal(t.args[0], depth+1)
+	case OpAnd:
+		a, b := maxVal(t.args[0], depth+1), maxVal(t.args[1], depth+1)
+		if a < b {
+			return a
+		}
+		return b
+	case OpOr, OpXor:
+		a, b := maxVal(t.args[0], depth+1), maxVal(t.args[1], depth+1)
+		if a < b {
+			a = b
+		}
+		// smallest 2^k-1 >= a
+		r := uint64(0)
+		for r < a {
+			r = r<<1 | 1
+		}
+		return r
+	case OpIte:
+		a, b := maxVal(t.args[1], depth+1), maxVal(t.args[2], depth+1)
+		if a < b {
+			return b
+		}
+		return a
+	case OpExtract:
+		if t.lo == 0 {
+			a := maxVal(t.args[0], depth+1)
+			if a < m {
+				return a
+			}
+		}
+		return m
+	case OpURem:
+		if t.args[1].IsConst() && t.args[1].val > 0 {
+			return t.args[1].val - 1
+		}
+	case OpUDiv:
+		if t.args[1].IsConst() && t.args[1].val > 0 {
+			return maxVal(t.args[0], depth+1) / t.args[1].val
+		}
+	case OpConcat:
+		return maxVal(t.args[0], depth+1)<<uint(t.args[1].w) | mask(t.args[1].w)
+	}
+	return m
+}
+
 // Bin builds a binary bit-vector operation.
 func (c *TermCtx) Bin(op Op, a, b *Term) *Term {
 	if a.w != b.w {
@@ -444,6 +508,9 @@ func (c *TermCtx) Cmp(op Op, a, b *Term) *Term {
 		if b.IsConst() && b.val == 0 {
 			return c.ff
 		}
+		if b.IsConst() && maxVal(a, 0) < b.val {
+			return c.tt
+		}
 		if a.IsConst() && a.val == mask(w) {
 			return c.ff
 		}
@@ -455,6 +522,9 @@ func (c *TermCtx) Cmp(op Op, a, b *Term) *Term {
 		if a.IsConst() && a.val == 0 {
 			return c.tt
 		}
+		if b.IsConst() && maxVal(a, 0) <= b.val {
+			return c.tt
+		}
 		if b.IsConst() && b.val == mask(w) {
 			return c.tt
 		}
@@ -462,6 +532,16 @@ func (c *TermCtx) Cmp(op Op, a, b *Term) *Term {
 			return c.tt
 		}
 	case OpSlt:
+		if b.IsConst() && sext64(b.val, w) > 0 {
+			if ma := maxVal(a, 0); ma < (uint64(1)<<uint(w-1)) && ma < b.val {
+				return c.tt
+			}
+		}
+		if a.IsConst() && sext64(a.val, w) < 0 {
+			if mb := maxVal(b, 0); mb < (uint64(1) << uint(w-1)) {
+				return c.tt
+			}
+		}
 		// zext(x) <s k : zext values are non-negative and small
 		if a.op == OpZExt && b.IsConst() && a.args[0].w < w {
 			if sext64(b.val, w) <= 0 {
@@ -477,6 +557,16 @@ func (c *TermCtx) Cmp(op Op, a, b *Term) *Term {
 			}
 		}
 	case OpSle:
+		if b.IsConst() && sext64(b.val, w) >= 0 {
+			if ma := maxVal(a, 0); ma < (uint64(1)<<uint(w-1)) && ma <= b.val {
+				return c.tt
+			}
+		}
+		if a.IsConst() && sext64(a.val, w) <= 0 {
+			if mb := maxVal(b, 0); mb < (uint64(1) << uint(w-1)) {
+				return c.tt
+			}
+		}
 		if a.op == OpZExt && b.IsConst() && a.args[0].w < w {
 			if sext64(b.val, w) < 0 {
 				return c.ff
